@@ -22,7 +22,7 @@ probe 180, shutdown 60, term 60, staleRunLock 60; for `sb`: booting 100, probe 3
   rs <o|e|r …>                                                   Pool.runSync with the cloud's Instances() answering ok / error /
      rate-limit error in turn, then ok → `lists=<n>`: Instances() calls seen, capped at script length + 1
   rc <0|1>                                                       Pool.reportSSHConnected for an instance whose worker is (1) / is not (0)
-     in the pool → `ok` or `panic runtime error: invalid memory address or nil pointer dereference` (finding F15b)
+     in the pool → `ok` (a nil-dereference panic before the fix of F15b)
   o1 <st<u>|pa<u/…|->|sd<u>,…>                                 runner objects of one Idle run-mode worker: StartContainer (the
      `crunch-run --detach` stays outstanding), probe applied with the listed uuids, completion of the outstanding start
      → `<S> sg=<…> rg=<…> ex=<…>`, or `panic close of closed channel` (cannot happen since the fix of F15a)
